@@ -355,6 +355,10 @@ type fakeNode struct {
 	gated   bool
 	arrive  chan struct{}
 	release chan struct{}
+	// gating of the chain-info request (the height poller's tick)
+	hgated   bool
+	harrive  chan struct{}
+	hrelease chan struct{}
 }
 
 func newFakeNode() *fakeNode {
@@ -391,6 +395,9 @@ func (n *fakeNode) reset() {
 	n.gated = false
 	n.arrive = make(chan struct{})
 	n.release = make(chan struct{})
+	n.hgated = false
+	n.harrive = make(chan struct{})
+	n.hrelease = make(chan struct{})
 }
 
 // grow makes the k-th scripted portion of hidden events visible (caller holds the lock)
@@ -572,6 +579,22 @@ func (n *fakeNode) serve(w http.ResponseWriter, r *http.Request) {
 			n.reply(w, 200, fmt.Sprintf(`{"hash":"%s","timestamp":%d,"chainFrom":0,"chainTo":0,"height":%d,"deps":[]}`, bh, h.ts, h.height))
 		}
 	case p == "/blockflow/chain-info":
+		n.mu.Lock()
+		hgated := n.hgated
+		harrive, hrelease := n.harrive, n.hrelease
+		n.mu.Unlock()
+		if hgated {
+			select {
+			case harrive <- struct{}{}:
+				select {
+				case <-hrelease:
+				case <-r.Context().Done():
+					return
+				}
+			case <-r.Context().Done():
+				return
+			}
+		}
 		n.mu.Lock()
 		defer n.mu.Unlock()
 		if key != n.key { // the case this request belongs to is over
